@@ -124,6 +124,32 @@ pub fn replay(ctx: &Ctx, w: &serde_json::Value) -> Report {
             }
             Err(e) => rep.inconclusive.push(format!("the witness carries no program to replay: {}", e)),
         },
+        "lockstep-staking" => match serde_json::from_value::<crate::engines::e4_staking::Case>(w["case"].clone()) {
+            Ok(sc) => match (on_fresh_thread(|| staking_transcript(&sc)), catch(|| staking_lockstep(&sc))) {
+                (Ok(first), Ok((a, b))) => {
+                    rep.evaluations += 1;
+                    if a != first || b != first {
+                        let which = if a != first { &a } else { &b };
+                        rep.violate("C19", "interleaved-instance-transcript-differs", first_diff(&first, which), json!({"engine": "e7", "mode": "lockstep-staking", "history": i, "case": sc}));
+                    }
+                }
+                (x, y) => rep.inconclusive.push(format!("lock-step replay panicked: {:?} {:?}", x.err(), y.err())),
+            },
+            Err(e) => rep.inconclusive.push(format!("the witness carries no program to replay: {}", e)),
+        },
+        "lockstep-bank" => match serde_json::from_value::<crate::engines::e3_bank::Case>(w["case"].clone()) {
+            Ok(bc) => match (on_fresh_thread(|| bank_transcript(&bc)), catch(|| bank_lockstep(&bc))) {
+                (Ok(first), Ok((a, b))) => {
+                    rep.evaluations += 1;
+                    if a != first || b != first {
+                        let which = if a != first { &a } else { &b };
+                        rep.violate("C19", "interleaved-instance-transcript-differs", first_diff(&first, which), json!({"engine": "e7", "mode": "lockstep-bank", "history": i, "case": bc}));
+                    }
+                }
+                (x, y) => rep.inconclusive.push(format!("lock-step replay panicked: {:?} {:?}", x.err(), y.err())),
+            },
+            Err(e) => rep.inconclusive.push(format!("the witness carries no program to replay: {}", e)),
+        },
         "twin-bank" => match serde_json::from_value::<crate::engines::e3_bank::Case>(w["case"].clone()) {
             Ok(bc) => {
                 let runs = [on_fresh_thread(|| bank_transcript(&bc)), catch(|| bank_transcript(&bc)), catch(|| bank_transcript(&bc))];
@@ -284,11 +310,36 @@ pub fn run(ctx: &Ctx) -> Report {
                     rep.bump("c19/staking/twin_compared");
                     rep.bump("c19/staking/fresh_thread_compared");
                     compare_runs(&mut rep, &runs, "staking", j, json!(sc));
+                    // two instances in lock-step on this thread (same validators, block times and delegators)
+                    if let Ok(first) = &runs[0] {
+                        match catch(|| staking_lockstep(&sc)) {
+                            Ok((a, b)) => {
+                                rep.bump("c19/staking/lockstep_compared");
+                                if &a != first || &b != first {
+                                    let which = if &a != first { &a } else { &b };
+                                    rep.violate("C19", "interleaved-instance-transcript-differs", first_diff(first, which), json!({"engine": "e7", "mode": "lockstep-staking", "history": j, "case": sc}));
+                                }
+                            }
+                            Err(p) => rep.violate("C19", "fresh-instance-panics-where-earlier-identical-instances-worked", p.clone(), json!({"engine": "e7", "mode": "lockstep-staking", "history": j, "panic": p})),
+                        }
+                    }
                     let runs = [on_fresh_thread(|| bank_transcript(&bc)), catch(|| bank_transcript(&bc)), catch(|| bank_transcript(&bc))];
                     rep.evaluations += 1;
                     rep.bump("c19/bank/twin_compared");
                     rep.bump("c19/bank/fresh_thread_compared");
                     compare_runs(&mut rep, &runs, "bank", j, json!(bc));
+                    if let Ok(first) = &runs[0] {
+                        match catch(|| bank_lockstep(&bc)) {
+                            Ok((a, b)) => {
+                                rep.bump("c19/bank/lockstep_compared");
+                                if &a != first || &b != first {
+                                    let which = if &a != first { &a } else { &b };
+                                    rep.violate("C19", "interleaved-instance-transcript-differs", first_diff(first, which), json!({"engine": "e7", "mode": "lockstep-bank", "history": j, "case": bc}));
+                                }
+                            }
+                            Err(p) => rep.violate("C19", "fresh-instance-panics-where-earlier-identical-instances-worked", p.clone(), json!({"engine": "e7", "mode": "lockstep-bank", "history": j, "panic": p})),
+                        }
+                    }
                 }
                 Err(p) => rep.violate("C19", "fresh-instance-panics-where-earlier-identical-instances-worked", p.clone(), json!({"engine": "e7", "mode": "generation", "history": j, "panic": p})),
             }
@@ -353,7 +404,7 @@ pub fn run(ctx: &Ctx) -> Report {
     rep.assume("transcripts exclude error texts (Ok/Err only), as the property speaks of errors-or-not");
     rep.assume("Miri runs (thorough tier) use a short chain history (setup + 3 transactions) because the interpreter is ~4 orders of magnitude slower");
     rep.add("c19/contract_panics_caught_on_other_instances", crate::engines::e7_determinism::PANICS_CAUGHT_ON_OTHER_INSTANCES.load(std::sync::atomic::Ordering::Relaxed));
-    for k in ["c19/chain/twin_compared", "c19/chain/interleaved_compared", "c19/staking/twin_compared", "c19/bank/twin_compared", "c19/staking/fresh_thread_compared", "c19/chain/fresh_thread_compared", "c19/processes_compared", "c19/chain/unrelated_steps_interleaved", "c19/chain/after_foreign_instance_compared", "c19/contract_panics_caught_on_other_instances"] {
+    for k in ["c19/chain/twin_compared", "c19/chain/interleaved_compared", "c19/staking/twin_compared", "c19/bank/twin_compared", "c19/staking/fresh_thread_compared", "c19/chain/fresh_thread_compared", "c19/processes_compared", "c19/chain/unrelated_steps_interleaved", "c19/chain/after_foreign_instance_compared", "c19/contract_panics_caught_on_other_instances", "c19/staking/lockstep_compared", "c19/bank/lockstep_compared"] {
         rep.require(k);
     }
     if thorough && rep.count("c19/miri_seeds_compared") == 0 && std::env::var("VERIF_MIRI_SEEDS").map(|s| s != "0").unwrap_or(true) {
